@@ -82,6 +82,7 @@ def valid_case(draw, max_n=40, max_d=9, kernels=None):
             "ylayout": draw(st.sampled_from(["contig", "contig", "strided", "reversed"])),
             "out": draw(st.sampled_from(["none", "fresh", "view_strided", "view_offset"])),
             "threads": draw(st.sampled_from(THREADS)),
+            "readonly": draw(st.sampled_from([False, False, True])),
             "junk": draw(st.sampled_from([float("nan"), 1e300, -7.25, 0.0, 3.0]))}
 
 
@@ -183,6 +184,9 @@ def _eval_valid(c):
     X = lay_X(V, c["xlayout"])
     y = lay_y(v, c["ylayout"])
     require(np.array_equal(X, V) and np.array_equal(y, v), "harness: layout changed values")
+    if c.get("readonly"):        # read-only inputs (e.g. memory-mapped data) are valid: the kernels only read X and y
+        X.flags.writeable = False
+        y.flags.writeable = False
     Xbuf = X.base if X.base is not None else X
     ybuf = y.base if y.base is not None else y
     Xb, yb = Xbuf.tobytes(), ybuf.tobytes()
@@ -232,7 +236,8 @@ def run_values(case):
     n = len(case["X"])
     nt = case["xlayout"] != "C" or (case["threads"] > 1 and n > case["threads"])
     return Info(nt, ["kernel=" + case["kernel"], "dtype=" + case["dtype"], "xlayout=" + case["xlayout"],
-                     "ylayout=" + case["ylayout"], "out=" + case["out"], "threads=%d" % case["threads"]])
+                     "ylayout=" + case["ylayout"], "out=" + case["out"], "threads=%d" % case["threads"],
+                     "readonly=%s" % bool(case.get("readonly"))])
 
 
 # ---------------------------------------------------------------------------
@@ -240,7 +245,7 @@ def run_values(case):
 
 INVALID_KINDS = ["X_rank1", "X_rank3", "y_rank0", "y_rank2", "y_longer", "y_shorter", "mixed_dtype",
                  "unsupported_dtype", "out_dtype", "out_short", "out_long", "out_rank2_col", "out_rank2_row",
-                 "out_rank0", "X_rank0"]
+                 "out_rank0", "X_rank0", "byteswapped", "out_readonly"]
 
 
 @st.composite
@@ -315,6 +320,14 @@ def eval_invalid(it):
         out = np.zeros((1, n), dtype=np.float64) if n > 1 else np.zeros((1, 1, 1), dtype=np.float64)
     elif k == "out_rank0":
         out = np.array(0.0)
+    elif k == "byteswapped":          # non-native byte order is an unsupported buffer type
+        X = X.astype(X.dtype.newbyteorder())
+        y = y.astype(y.dtype.newbyteorder())
+        if X.dtype.itemsize == 1:
+            out = np.zeros(n + 1, dtype=np.float64)      # 1-byte types have no byte order: fall back to a bad out
+    elif k == "out_readonly":
+        out = np.zeros(n, dtype=np.float64)
+        out.flags.writeable = False
     try:
         r = fn(X, y, out) if out is not None else fn(X, y)
     except Exception as e:
